@@ -2,7 +2,7 @@
 # Run checks against a seeded change in a scratch copy (PYMABLOCK_SRC), without touching /repo:
 #   seeded_eval.sh <patch.diff> <tag> <Cxx> [Cxx...]
 set -u
-PATCH="$1"; TAG="$2"; shift 2
+PATCH="$(readlink -f "$1")"; TAG="$2"; shift 2
 S="/var/tmp/verif-seeded-eval/$TAG"; rm -rf "$S"; mkdir -p "$S"
 cp -r "${CLEAN_SRC:-/repo}/pymablock" "$S/pymablock"; rm -rf "$S/pymablock/tests" "$S"/pymablock/__pycache__
 ( cd "$S" && patch -p1 -s < "$PATCH" ) || { echo "PATCH FAILED"; exit 9; }
